@@ -27,8 +27,10 @@ fn expand_brace_expr_or_text(
     }
 }
 
-/// The longest number sequence a brace expression may generate.
-const MAX_SEQUENCE_ELEMENTS: u128 = i32::MAX as u128;
+/// The longest number sequence a brace expression may generate. (bash gives up where the
+/// element array cannot be allocated; the words of a sequence this long already take more
+/// than a gigabyte.)
+const MAX_SEQUENCE_ELEMENTS: u128 = 1 << 25;
 
 #[expect(clippy::cast_possible_wrap)]
 fn expand_brace_expr_member(bem: word::BraceExpressionMember) -> Box<dyn Iterator<Item = String>> {
